@@ -5,7 +5,9 @@ Find.tla computes, in integer arithmetic, the exact vertex sets of sphere and pl
 hexahedron (checked by TLC to be a rotation for all 24 frames).  The harness builds the lattice mesh under a
 random similarity and compares GeometricFinder's answers with the exact sets (plus 0.3/3 x TOL twins for the
 plane finder), checks RoundSolidFinder's core/rim sets on round shapes against geometric predicates, and
-re-orients a distorted convex block from all 48 initial numberings x 24 frames.
+re-orients a distorted convex block from all 48 initial numberings x 24 frames, and a mildly distorted one from
+viewpoints in general position (block turned with respect to the line of sight, ceiling point pulled towards or away
+from the observer) for which Find.tla decides the front and the top side by a clear integer margin.
 """
 
 from __future__ import annotations
@@ -141,27 +143,48 @@ def round_finder(ctx: Ctx, rng: random.Random, n: int) -> None:
                 ctx.violation(f"round-finder:shell:{kind}", f"find_shell returned {sorted(got_shell)}, rim vertices are {sorted(rim)}", {"kind": kind, "end": end})
 
 
-def reorient(ctx: Ctx, view: dict, rng: random.Random, full: bool) -> None:
+def reorient(ctx: Ctx, view: dict, rng: random.Random, full: bool, oblique: bool = False) -> None:
     import classy_blocks as cb
     import numpy as np
 
     point, vector, scale = similarity(rng)
-    distort = [[rng.choice([-1, 0, 1, 2]) for _ in range(3)] for _ in range(8)]
+    if oblique:
+        # viewpoints in general position: the block is turned with respect to the line of sight and the ceiling point is
+        # pulled towards/away from the observer; Find.tla decided front and top by a 1.5x margin, so only a mild distortion
+        distort = [[rng.choice([-0.3, 0, 0.2, 0.3]) for _ in range(3)] for _ in range(8)]
+        frames = view["oblique"] if full else rng.sample(view["oblique"], 400)
+        per_frame = 4 if full else 2
+    else:
+        distort = [[rng.choice([-1, 0, 1, 2]) for _ in range(3)] for _ in range(8)]
+        frames = view["frames"]
+        per_frame = 48 if full else 16
     ref = [point([10 * hexref.XYZ[r][i] + distort[r][i] for i in range(3)]) for r in range(8)]
     centre = [sum(p[i] for p in ref) / 8 for i in range(3)]
     size = 10 * scale
-    numberings = view["numberings"] if full else rng.sample(view["numberings"], 16)
-    for frame in view["frames"]:
+    numberings = view["numberings"] if (full and not oblique) else rng.sample(view["numberings"], per_frame)
+    rotations = [hexref.SYMS[n] for n in hexref.ROT_IDX]
+    for frame in frames:
         o, c = vector(frame["o"]), vector(frame["c"])
+        if oblique:
+            numberings = rng.sample(view["numberings"], per_frame)
         for num in numberings:
             pts = [ref[num[k]] for k in range(8)]
             op = cb.Loft(cb.Face(pts[:4]), cb.Face(pts[4:]))
-            jit = [rng.uniform(-3, 3) * size for _ in range(6)]
-            tilt = rng.uniform(-0.6, 0.6)      # the ceiling point need not be at a right angle to the line of sight
-            observer = [centre[i] + 60 * size * o[i] + jit[i] for i in range(3)]
-            ceiling = [centre[i] + 60 * size * (c[i] + tilt * o[i]) + jit[3 + i] for i in range(3)]
+            if oblique:
+                far = rng.choice([20, 60, 300]) * size / vnorm(o)
+                far_c = rng.choice([20, 60, 300]) * size / vnorm(c)
+                jit = [rng.uniform(-0.2, 0.2) * size for _ in range(6)]
+                observer = [centre[i] + far * o[i] + jit[i] for i in range(3)]
+                ceiling = [centre[i] + far_c * c[i] + jit[3 + i] for i in range(3)]
+            else:
+                jit = [rng.uniform(-3, 3) * size for _ in range(6)]
+                tilt = rng.uniform(-0.6, 0.6)      # the ceiling point need not be at a right angle to the line of sight
+                observer = [centre[i] + 60 * size * o[i] + jit[i] for i in range(3)]
+                ceiling = [centre[i] + 60 * size * (c[i] + tilt * o[i]) + jit[3 + i] for i in range(3)]
             ctx.evaluated(f"reorient:{frame['o']}:{frame['c']}:{num}")
-            mirrored = "mirrored" if num not in [hexref.SYMS[n] for n in hexref.ROT_IDX] else "rotated"
+            mirrored = "mirrored" if num not in rotations else "rotated"
+            if oblique:
+                mirrored += ":oblique"
             try:
                 cb.ViewpointReorienter(observer, ceiling).reorient(op)
             except Exception as err:  # pylint: disable=broad-except
@@ -198,5 +221,6 @@ def run(ctx: Ctx) -> None:
         ctx.validated(len(qs))
     round_finder(ctx, rng, 6 if ctx.tier == "quick" else 40)
     reorient(ctx, views[0], rng, full=ctx.tier == "thorough")
+    reorient(ctx, views[0], rng, full=ctx.tier == "thorough", oblique=True)
     ctx.sample({k: qs[0][k] for k in ("kind", "c", "r22", "n")} | {"found": qs[0]["found"][:5]})
     ctx.exhaustive = ctx.tier == "thorough"
